@@ -147,7 +147,8 @@ def mutate_attr(
 
     # Invalidate any caches depending on this attribute
     if not skip_invalidation and metadata and metadata.invalidation_map:
-        invalidate_attrs(obj, attr, metadata.invalidation_map)
+        with unfrozen(obj, only_if=not inplace):
+            invalidate_attrs(obj, attr, metadata.invalidation_map)
 
     return obj
 
